@@ -12,6 +12,7 @@ module Buffer = Stdlib.Buffer
 open Zutil
 open HashSpec
 open HashModel
+open HashAllocModel
 
 let st_name = function SUCCESS -> "SUCCESS" | EXISTS -> "EXISTS" | NO_MEM -> "NO_MEM" | NOT_FOUND -> "NOT_FOUND"
 
@@ -49,21 +50,43 @@ let sorted_ids (l : coq_rec list) =
   let ids = List.sort compare (List.map (fun r -> int_of_z (snd r)) l) in
   if ids = [] then "-" else String.concat "," (List.map string_of_int ids)
 
-(* ---- model line *)
-let model_line hf script ops =
+(* ---- model line: the instrumented model (HashAllocModel.astep; erasing the block ids gives HashModel.step,
+   Properties_C08_hash.hash_alloc_erasure_step); the allocator events are printed in harness/valloc.h's format,
+   sizes recomputed here: 64 bytes for the table struct, 16 bytes per slot *)
+let model_line hf (from_new : bool) script ops =
   let obs = Buffer.create 256 and str = Buffer.create 256 in
   let add b s = (if Buffer.length b > 0 then Buffer.add_char b ' '); Buffer.add_string b s in
   let roles = ref true in
-  let rec go rs o = function
-    | [] -> add obs (if !roles then "roles=ok" else "roles=BAD")
+  let mem = ref [] in           (* printed allocator events, reversed *)
+  let seen = ref 0 in           (* events of the log already printed *)
+  let flush_mem (a : AllocModel.ast) (slots : BinNums.coq_Z) =
+    let l = a.AllocModel.log in
+    List.iteri (fun i e ->
+        if i >= !seen then
+          match e with
+          | FaultSpec.EAlloc (_, _, id) ->
+            let id = int_of_nat id in
+            let size = if id = 0 then 64 else 16 * int_of_z slots in
+            mem := Printf.sprintf "A%d:p:%d" id size :: !mem
+          | FaultSpec.EFree (_, _, id) -> mem := Printf.sprintf "F%d:p" (int_of_nat id) :: !mem) l;
+    seen := List.length l in
+  let mem_token () = "mem=" ^ (if !mem = [] then "-" else String.concat "," (List.rev !mem)) in
+  let rec go (rs : arstate) (a : AllocModel.ast) = function
+    | [] ->
+      add obs (if !roles then "roles=ok" else "roles=BAD");
+      let a' = afree (fst rs) a in
+      flush_mem a' Z0;
+      add str (mem_token ())
     | (c, op) :: rest ->
       let cs = String.make 1 c in
-      let ((x, lg), o') = step hf rs op o in
+      let st0 = (fst rs).a_st in
+      let ((x, lg), a') = astep hf rs op a in
       (match x with
        | OutOfFuel -> add obs (cs ^ "=HANG")
        | Undef -> add obs (cs ^ "=UNDEF")
        | Ret (res, rs') ->
-         if not (roles_okb (fst rs) op lg) then roles := false;
+         flush_mem a' (fst rs').a_st.h_n;
+         if not (roles_okb st0 op lg) then roles := false;
          (match res with
           | RStatus s -> add obs (cs ^ "=" ^ st_name s); add str (log_s lg)
           | RSkipped -> add obs (cs ^ "=skip"); add str "-"
@@ -72,14 +95,13 @@ let model_line hf script ops =
             add str (string_of_z idx ^ log_s lg)
           | RFind (it, r) ->
             add obs (cs ^ "=" ^ (match it with None -> "end" | Some _ -> opt_id "null" r));
-            add str ((match it with None -> string_of_z (fst rs).h_n | Some i -> string_of_z i) ^ log_s lg)
+            add str ((match it with None -> string_of_z st0.h_n | Some i -> string_of_z i) ^ log_s lg)
           | RRec r -> add obs (cs ^ "=" ^ opt_id "null" r); add str (log_s lg)
           | RRemoved (s, r) ->
             add obs (cs ^ "=" ^ st_name s ^ ":" ^ opt_id "null" r);
             (* E prints the iterator found first; R does not expose it *)
             if c = 'E' then begin
-              (* the iterator is recomputed from the pre-state by the model's find (same call as in step) *)
-              let (fi, _) = find hf (fst rs) (match op with OErase k -> k | _ -> Z0) in
+              let (fi, _) = find hf st0 (match op with OErase k -> k | _ -> Z0) in
               add str ((match fi with Ret i -> string_of_z i | _ -> "?") ^ log_s lg)
             end else add str (log_s lg)
           | RSize z -> add obs (cs ^ "=" ^ string_of_z z); add str "-"
@@ -91,8 +113,11 @@ let model_line hf script ops =
             add obs (cs ^ "=" ^ (if toks = [] then "-" else String.concat "," toks));
             add str (if l = [] then "-" else
                        String.concat "," (List.map (fun (i, r) -> string_of_z i ^ ":" ^ opt_id "null" r) l)));
-         go rs' o' rest) in
-  go (hash_new, None) script ops;
+         go rs' a' rest) in
+  let oracle = if from_new then script else true :: true :: script in
+  (match anew (AllocModel.ast0 oracle) with
+   | (None, a) -> flush_mem a (z_of_int 4); add obs "new-failed"; add str (mem_token ())
+   | (Some h, a) -> flush_mem a (z_of_int 4); go (h, None) a ops);
   Buffer.contents obs ^ " || " ^ Buffer.contents str
 
 (* ---- spec line: the association-list map of HashSpec.v, no allocation failures *)
@@ -134,9 +159,11 @@ let () =
            let hf = match hfname with
              | "const" -> hf_const | "id" -> hf_id | "mod4" -> hf_mod4 | "mult" -> hf_mult
              | "special" -> hf_special | _ -> failwith "bad hf" in
+           let from_new = String.length script > 0 && script.[0] = 'n' in
+           let script = if from_new then String.sub script 1 (String.length script - 1) else script in
            let o = if script = "-" then [] else List.init (String.length script) (fun i -> script.[i] <> '0') in
            let ops = List.map parse_op ops in
            let has_fail = List.exists (fun b -> not b) o in
-           Printf.printf "M %s\nS %s\n" (model_line hf o ops) (if has_fail then "*" else spec_line ops)
+           Printf.printf "M %s\nS %s\n" (model_line hf from_new o ops) (if has_fail then "*" else spec_line ops)
          with Failure _ | Invalid_argument _ -> Printf.printf "M bad-case\nS *\n")
       | _ -> Printf.printf "M bad-case\nS *\n")
